@@ -33,6 +33,20 @@
 
 namespace srun {
 
+std::vector<std::string> shipped_decks(std::size_t min_time_keywords) {
+    std::vector<std::string> out;
+    const bool was = true; (void)was;
+    sim::fs::passthrough(true);
+    const std::vector<std::string> dirs = {"/repo/tests", "/repo/tests/msim", "/repo/tests/parser/data/integration_tests/IOConfig", "/repo/tests/parser/data/integration_tests/SCHEDULE"};
+    for (auto& d : dirs) { std::vector<std::string> names; try { names = sim::fs::listdir(d); } catch (...) { continue; }
+        for (auto& n : names) { if (n.size() < 6 || n.substr(n.size() - 5) != ".DATA") continue; std::string t; try { t = sim::fs::slurp(d + "/" + n); } catch (...) { continue; }
+            if (t.size() > 400000 || t.find("\nSCHEDULE") == std::string::npos || t.find("PYACTION") != std::string::npos || t.find("\nRESTART") != std::string::npos) continue;
+            std::size_t cnt = 0; for (const char* kw : {"\nDATES", "\nTSTEP"}) for (std::size_t q = t.find(kw); q != std::string::npos; q = t.find(kw, q + 1)) ++cnt;
+            if (cnt >= min_time_keywords) out.push_back(d + "/" + n); } }
+    sim::fs::passthrough(false);
+    return out;
+}
+
 const std::vector<ExtraDef>& extra_catalogue() {
     static const std::vector<ExtraDef> c = {{"VEXTRA", Opm::UnitSystem::measure::pressure}, {"LEXTRA", Opm::UnitSystem::measure::length}, {"IEXTRA", Opm::UnitSystem::measure::identity},
                                              {"TEXTRA", Opm::UnitSystem::measure::time}, {"QEXTRA", Opm::UnitSystem::measure::liquid_surface_rate}};
